@@ -1266,8 +1266,6 @@ impl RaftLogManager {
                 if is_remove {
                     pop_count += 1;
                 }
-            } else {
-                break;
             }
         }
         if pop_count > 0 {
